@@ -13,3 +13,8 @@ chk('C05', 'model_checking',
     'Designs and widths above the bound are not covered; for designs with more than 5 sequential leaves only a stated subset of permutations is used and the evidence marks the shard capped.',
     'explicit-state search with exhaustive schedule (visit-order permutation) enumeration per transition',
     'DESIGN.md 4/C05')
+chk('C07', 'exploration',
+    'Complete truth tables: every arithmetic block x every constructor option x every combination of port widths up to the bound (each port width varied independently) x all input vectors, compared with Python integer arithmetic reduced modulo 2**(output width); zero divisors and rotation amounts above the data width are skipped and counted.',
+    'Reference functions in mc/refmodels/arith.py are trusted; widths above the bound (quick 3, thorough 6-8 bits) are not covered.',
+    'bounded exhaustive input/configuration enumeration against an integer reference',
+    'DESIGN.md 4/C07')
